@@ -35,11 +35,11 @@ Qed.
 Lemma fmt_of_ext_cases : forall e fm,
     fmt_of_ext e = Some fm <->
     match fm with
-    | FJson => e = s2p "json"
-    | FYaml => e = s2p "yaml" \/ e = s2p "yml"
-    | FToml => e = s2p "toml"
-    | FPickle => e = s2p "pickle"
-    | FCsv => e = s2p "csv" \/ e = s2p "tsv"
+    | FJson => e = EXT_JSON
+    | FYaml => e = EXT_YAML \/ e = EXT_YML
+    | FToml => e = EXT_TOML
+    | FPickle => e = EXT_PICKLE
+    | FCsv => e = EXT_CSV \/ e = EXT_TSV
     end.
 Proof.
   intros e fm. unfold fmt_of_ext.
@@ -48,25 +48,25 @@ Proof.
     - revert t. induction e as [|x e IH]; intros [|y t] H; try discriminate; [reflexivity|].
       cbn in H. apply andb_true_iff in H as [H1 H2]. apply N.eqb_eq in H1. subst. f_equal. apply IH; exact H2.
     - intros <-. induction e as [|x e IH]; [reflexivity|]. cbn. rewrite N.eqb_refl. exact IH. }
-  destruct (pystr_eqb e (s2p "json")) eqn:E1.
+  destruct (pystr_eqb e EXT_JSON) eqn:E1.
   { apply Heq in E1. subst e. destruct fm; split; intro H; try discriminate; try reflexivity;
       try (destruct H; discriminate). }
-  destruct (pystr_eqb e (s2p "yaml")) eqn:E2.
+  destruct (pystr_eqb e EXT_YAML) eqn:E2.
   { apply Heq in E2. subst e. destruct fm; split; intro H; try discriminate; try reflexivity; auto;
       try (destruct H; discriminate). }
-  destruct (pystr_eqb e (s2p "yml")) eqn:E3.
+  destruct (pystr_eqb e EXT_YML) eqn:E3.
   { apply Heq in E3. subst e. destruct fm; split; intro H; try discriminate; try reflexivity; auto;
       try (destruct H; discriminate). }
-  destruct (pystr_eqb e (s2p "toml")) eqn:E4.
+  destruct (pystr_eqb e EXT_TOML) eqn:E4.
   { apply Heq in E4. subst e. destruct fm; split; intro H; try discriminate; try reflexivity; auto;
       try (destruct H; discriminate). }
-  destruct (pystr_eqb e (s2p "pickle")) eqn:E5.
+  destruct (pystr_eqb e EXT_PICKLE) eqn:E5.
   { apply Heq in E5. subst e. destruct fm; split; intro H; try discriminate; try reflexivity; auto;
       try (destruct H; discriminate). }
-  destruct (pystr_eqb e (s2p "csv")) eqn:E6.
+  destruct (pystr_eqb e EXT_CSV) eqn:E6.
   { apply Heq in E6. subst e. destruct fm; split; intro H; try discriminate; try reflexivity; auto;
       try (destruct H; discriminate). }
-  destruct (pystr_eqb e (s2p "tsv")) eqn:E7.
+  destruct (pystr_eqb e EXT_TSV) eqn:E7.
   { apply Heq in E7. subst e. destruct fm; split; intro H; try discriminate; try reflexivity; auto;
       try (destruct H; discriminate). }
   cbn. split; [discriminate|].
@@ -238,7 +238,7 @@ Section FormatProofs.
       { destruct (final_transfer X _ _ _ _ _ _ _ _ _ Es) as [es2 [H2 _]]. rewrite H1A, H1b in H2.
         revert H2. cbn [shape_of]. rewrite Hcs.
         unfold save_tr2, save_trP, body_tr, inner_tr, close_tr, write_tr, ren_entries, dumps_at, dumps_res.
-        destruct ev as [at_ en em ep [dd|]]; destruct fa, keep; cbn; intro H2; inversion H2; (split; [reflexivity | congruence]). }
+        destruct ev as [at_ en em ep [dd|] [|]]; destruct fa, keep; cbn; intro H2; inversion H2; (split; [reflexivity | congruence]). }
       destruct Ho as [-> Hv]. unfold view in Hv. inversion Hv.
       destruct (final_transfer X _ _ _ _ _ _ _ _ _ Es) as [_ [_ Hfr]].
       exists f'. repeat split; auto.
